@@ -643,9 +643,12 @@ func (m *Manager) readIntoTable(id uint64, reader io.Reader) error {
 
 			batchCmd.Table = cmd.Table
 			batchCmd.LeaderIndex = cmd.LeaderIndex
-
-			if uint64(estimatedSize) < m.cfg.Table.MaxInMemLogSize/2 {
+			if cmd.Kv != nil {
 				batchCmd.Batch = append(batchCmd.Batch, cmd.Kv)
+			}
+
+			// MaxInMemLogSize == 0 means no limit.
+			if m.cfg.Table.MaxInMemLogSize == 0 || uint64(estimatedSize) < m.cfg.Table.MaxInMemLogSize/2 {
 				continue
 			}
 		}
